@@ -472,7 +472,11 @@ def mon_c06(tr, upper=True):
                 if g["tflag"] & 0x100:
                     continue
                 if g["eflag"] & 0x4000:
-                    out.append(("expiry:unlimited-hold-expired", "request %d has the unlimited-expiry flag but was ended by time" % rp["req"], i))
+                    sig = "expiry:unlimited-hold-expired"
+                    if g["flag"] & 2 and g["expried"] == 65535:
+                        # UpdateLockedLock treats "unlimited flag + Expried 0xffff" in an UPDATE as "keep the running deadline"
+                        sig += ":update-with-unlimited-flag-and-0xffff-keeps-the-finite-deadline"
+                    out.append((sig, "request %d has the unlimited-expiry flag but was ended by time" % rp["req"], i))
                     continue
                 E = unit_seconds(g["eflag"], g["expried"])
                 if t - t0 < E:
